@@ -219,6 +219,9 @@ class MapOverlap(ArrayExpr):
 
     @functools.cached_property
     def shape(self):
+        if not self.trim_output:
+            # The halos stay on: the result is as large as the overlapped input.
+            return tuple(map(sum, self.chunks))
         # Output shape = input shape (no new_axis/drop_axis in this expr)
         return self._get_primary_array().shape
 
@@ -233,6 +236,15 @@ class MapOverlap(ArrayExpr):
         # If allow_rechunk, the input is rechunked to ensure minimum chunk size >= depth
         primary = self._get_primary_array()
         primary_idx = self._get_primary_index()
+        if not self.trim_output and "chunks" not in self._kwargs:
+            # Without the trim every block keeps its halo: func sees, and by
+            # default returns, the blocks of the overlapped input (see _lower).
+            return overlap(
+                new_collection(primary),
+                depth=self.depth[primary_idx],
+                boundary=self.boundary[primary_idx],
+                allow_rechunk=self.allow_rechunk,
+            ).chunks
         if self.allow_rechunk:
             return _get_overlap_rechunked_chunks(
                 new_collection(primary), self.depth[primary_idx], self.boundary[primary_idx]
